@@ -287,6 +287,13 @@ func handleViolation(exe string, sc *scenario, tier string, seed, index uint64, 
 		return "", exitNoRepro
 	}
 	flaky := ""
+	if strings.HasSuffix(got, "/data-race") && tries == 1 {
+		// whether the Go race detector reports a given race in a given execution is not a pure
+		// function of the schedule: its shadow memory keeps a bounded, randomly evicted access
+		// history.  The race is in the code either way; candidates and the replay are repeated.
+		flaky = fmt.Sprintf("data-race reports depend on the race detector's bounded, randomly evicted shadow memory: an execution with the same schedule may go unreported; replay repeats the execution up to %d times", replayTries)
+		tr.tries = 3
+	}
 	if tries > 1 {
 		flaky = fmt.Sprintf("the violation first reproduced at the %d. fresh execution of the same run: the tree under test consults a source of nondeterminism that the simulator does not own; replay repeats the execution up to %d times", tries, replayTries)
 		tr.tries = 4
